@@ -208,6 +208,55 @@ def run(ctx):
                  "~45 validators, leaving lists with duplicates and unknown keys, enable epochs before/at/after the call); "
                  "distinct = distinct (shard count, minimums, distributor, flags, swap configs, list sizes, leaving sizes, "
                  "outcome sizes); every logged call is checked by TLC against the property invariants and the transcription")
+    if prop == "C13":
+        coordinator_determinism(ctx)
+
+
+def coordinator_determinism(ctx):
+    """C13 one level up (stage owned by the NodesCoord family, harness/cmd/vh-nodescoord determinism): the lists the
+    shuffler is handed are BUILT by indexHashedNodesCoordinator.EpochStartPrepare (computeNodesConfigFromList,
+    createSortedListFromMap, ComputeAdditionalLeaving) from maps.  K = 8 fresh real coordinators with the real shuffler are
+    built from the same arguments (maps filled in different insertion orders) and process the same epoch start blocks:
+    leaving validators in every shard, one shard above its removal limit, jailed / low-rated (additional leaving) / new
+    nodes, both waiting-list-fix settings, 2-3 shards + metachain, 3 epochs.  The order-sensitive eligible / waiting /
+    leaving lists of all K coordinators are compared after every epoch (signature
+    C13/coordinator/outputs-differ-across-identical-runs) and every (scenario, epoch, run) record is evaluated by TLC:
+    specs/NodesCoord/Determinism.tla, Inv_C13_CoordinatorDeterministic = equal inputs => equal outputs."""
+    import shutil
+    exe = ctx.go_build("vh-nodescoord")
+    dd = ctx.path("spec-determinism")
+    os.makedirs(dd, exist_ok=True)
+    for f in ("Determinism.tla", "Determinism.cfg"):
+        shutil.copy(os.path.join(vlib.VERIF, "specs", "NodesCoord", f), dd)
+    tr = os.path.join(dd, "trace.ndjson")
+    h = ctx.vh(exe, ["determinism", tr, 16 if ctx.quick else 150, 8], timeout=1800)
+    if h.rc != 0:
+        return
+    ev = int(h.stats.get("events", 0))
+    st, _ = vlib.validate_trace(ctx, dd, "Determinism", "Determinism.cfg", tr, ev, "C13/coordinator",
+                                divergence_is_violation=False, timeout=1800,
+                                what="K coordinators built from the same arguments, same epoch start blocks")
+    ctx.cov(traces_validated_against_impl=int(h.stats.get("scenarios", 0)), evaluations=int(h.stats.get("prepares", 0)),
+            distinct_nontrivial=int(h.stats.get("distinct", 0)), coordinator_prepares=int(h.stats.get("prepares", 0)),
+            coordinator_epochs_with_leaving_in_2plus_shards=int(h.stats.get("epochs_with_leaving_in_2plus_shards", 0)),
+            coordinator_runs_differing=int(h.stats.get("differing", 0)))
+    if not ctx.quick and st == "accepted":
+        def other_order(evs):   # one coordinator holds the same validators in another order
+            for e in evs:
+                if e["st"]["run"] > 0 and e["out"]["ok"] and any(len(x["l"]) > 1 for x in e["out"]["wait"]):
+                    x = next(x for x in e["out"]["wait"] if len(x["l"]) > 1)
+                    x["l"].reverse()
+                    break
+            return evs
+        orig = ctx.path("determinism.orig.ndjson")
+        shutil.copy(tr, orig)
+        vlib.selftest_rejects(ctx, dd, "Determinism", "Determinism.cfg", orig, other_order, timeout=900)
+    ctx.coverage["rule"] += ("; coordinator level: a case = one epoch start block processed by 8 fresh real coordinators "
+                             "(real shuffler) built from the same arguments; distinct = distinct (class, shards, fix setting, "
+                             "swap limit, shards with leaving validators, number leaving, epoch)")
+    ctx.assume("coordinator-level determinism is decided on the (scenario, epoch, run) records of 8 coordinators per "
+               "scenario; Go randomises map iteration per range statement, so a map-order dependence shows with "
+               "probability growing with the number of scenarios (16 quick / 150 thorough, 3 epochs each)")
 
 
 def selftest(ctx, sd, tr, prop):
